@@ -188,6 +188,13 @@ def interp_1d_conservative(phi, theta, target_theta_bins):
 """Mid level functions (xarray)"""
 
 
+def _unused_name(name, taken):
+    """Return `name`, lengthened until it differs from every name in `taken`."""
+    while name in taken:
+        name += "_"
+    return name
+
+
 def input_handling(func):
     """Decorator that handles input naming for interpolations."""
 
@@ -200,12 +207,13 @@ def input_handling(func):
         suffix = kwargs.pop("suffix", "")
 
         # rename all input dims to unique names to avoid conflicts in xr.apply_ufunc
-        temp_dim = "temp_dim_target"
+        taken = set(phi.dims) | set(theta.dims) | set(target_theta_levels.dims)
+        temp_dim = _unused_name("temp_dim_target", taken)
         target_theta_levels = target_theta_levels.rename({target_dim: temp_dim})
 
         # The phi_dim doesnt matter for the final product, so just rename to
         # # something unique to avoid conflicts in apply_ufunc
-        temp_dim2 = "temp_unique"
+        temp_dim2 = _unused_name("temp_unique", taken | {temp_dim})
         phi = phi.rename({phi_dim: temp_dim2})
 
         # Execute function with temporary names
@@ -247,6 +255,9 @@ def linear_interpolation(
 def conservative_interpolation(
     phi, theta, target_theta_levels, phi_dim, theta_dim, target_dim, **kwargs
 ):
+    remapped_dim = _unused_name(
+        "remapped", set(phi.dims) | set(theta.dims) | set(target_theta_levels.dims)
+    )
     out = xr.apply_ufunc(
         interp_1d_conservative,
         phi,
@@ -254,12 +265,14 @@ def conservative_interpolation(
         target_theta_levels,
         kwargs=kwargs,
         input_core_dims=[[phi_dim], [theta_dim], [target_dim]],
-        output_core_dims=[["remapped"]],
+        output_core_dims=[[remapped_dim]],
         dask="parallelized",
-        dask_gufunc_kwargs={"output_sizes": {"remapped": len(target_theta_levels) - 1}},
+        dask_gufunc_kwargs={
+            "output_sizes": {remapped_dim: len(target_theta_levels) - 1}
+        },
         # Since we are introducing a new dimension instead of changing it we need to declare the output size.
         output_dtypes=[phi.dtype],
-    ).rename({"remapped": target_dim})
+    ).rename({remapped_dim: target_dim})
 
     # assign the target cell center
     target_centers = (target_theta_levels.data[1:] + target_theta_levels.data[:-1]) / 2
